@@ -42,7 +42,7 @@ var specs = []Spec{
 
 func init() {
 	specs = append(specs, Spec{ID: "C09", Level: "exploration", MinDistinct: 1000, Engines: []Engine{
-		{Name: "coop", Pkg: "./mon/c09", Instr: []string{"core/stat/base/leap_array.go", "core/stat/base/bucket_leap_array.go", "core/stat/base/metric_bucket.go", "core/stat/base/mutex.go", "core/stat/base/sliding_window_metric.go"}},
+		{Name: "coop", Pkg: "./mon/c09", Instr: []string{"core/stat/base/leap_array.go", "core/stat/base/bucket_leap_array.go", "core/stat/base/metric_bucket.go", "core/stat/base/mutex.go+sync", "core/stat/base/sliding_window_metric.go"}},
 		{Name: "stress", Pkg: "./mon/c09", Race: true, Env: []string{"VERIF_MODE=stress"}, DeathSig: "C09/stress:process-died"},
 	}})
 	specs = append(specs, Spec{ID: "C10", Level: "exploration", MinDistinct: 1000, Engines: []Engine{
